@@ -60,6 +60,7 @@ type Obligation struct {
 	block   *ssa.BasicBlock
 	bg      *string
 	Result  *SolveResult
+	Replay  *ReplayResult
 	Vars    []ModelVar
 }
 
